@@ -73,6 +73,13 @@ def prepLine (line : String) : String :=
     match registryLookup name with
     | some d => s!"reg {name} | {hexOf d.toList}"
     | none => s!"reg {name} | none"
+  | "twin" :: rest =>
+    -- twin definitions: the same description with one parameter SET vs LEFT OUT, in both notations
+    match parseCrs (rest.take 16), (rest.getD 16 "0").toNat? with
+    | some (c, st), some om =>
+      let so := { st with leaveOut := om }
+      s!"twinx {" ".intercalate rest} | {hexOf (toProj4 c st)} {hexOf (toProj4 c so)} {hexOf (toWkt c st)} {hexOf (toWkt c so)}"
+    | _, _ => "skip bad-twin-line"
   | ["regalias", i] =>
     match specAliases[i.toNat?.getD 999]? with
     | some (a, tg) => s!"regalias {a} {tg}"
@@ -339,10 +346,62 @@ def judgePair (lhs rhs : Tok) : String :=
       | _ => s!"DIFF {cls} malformed-impl-line"
     | _ => s!"DIFF {cls} impl-{" ".intercalate (rhs.take 3)}"
 
+/-- one twin comparison `A <st> B <st> EQ ab ba NIL ab ba GRID n …` for the definitions `da`, `db`; returns the
+verdict text without the class (`none` = fine) and the rest of the tokens -/
+def judgeTwin (da db : Str) (r : Tok) : Option (String × String) × Tok :=
+  match r with
+  | "A" :: sa :: "B" :: sb :: "EQ" :: eab :: eba :: "NIL" :: nab :: nba :: "GRID" :: gn :: g =>
+    let n := gn.toNat?.getD 0
+    let rest := g.drop (14 * n)
+    let v : Option (String × String) :=
+      if sa ≠ "ok" || sb ≠ "ok" then
+        (if sa = "panic" || sb = "panic" then some ("SPEC", "parse-panicked") else none)   -- an unparsable twin says nothing
+      else if eab = "panic" || eba = "panic" || nab = "panic" || nba = "panic" then some ("SPEC", "Equal-or-NewTransform-panicked")
+      else if eab ≠ eba then some ("SPEC", s!"Equal-not-symmetric({eab},{eba})")
+      else if nab ≠ eab || nba ≠ eba then some ("SPEC", s!"NewTransform-nil({nab},{nba})-but-Equal({eab},{eba})")
+      else if eab = "t" then
+        -- Equal references get the identity transformer: they must then BE the same projection
+        (match gridAgree true 1.0 n g with
+         | some f => some ("SPEC", s!"Equal-and-nil-transformer-between-different-references:{f}")
+         | none => none)
+      else none
+    let v := match v with
+      | some x => some x
+      | none =>
+        let ma : Except Err (SR Float) := parse da
+        let mb : Except Err (SR Float) := parse db
+        match modelEq ma mb with
+        | none => none
+        | some m => if sa = "ok" && sb = "ok" && m ≠ eab then some ("DIFF", s!"Equal:model={m},impl={eab}") else none
+    (v, rest)
+  | _ => (some ("DIFF", "malformed-impl-line"), [])
+
 def judgeLine (line : String) : String :=
   let (lhs, rhs) := splitArrow (tokens line)
   match lhs with
   | "pair" :: rest => judgePair rest rhs
+  | "twinx" :: rest =>
+    let desc := rest.takeWhile (· ≠ "|")
+    let hs := rest.drop (desc.length + 1)
+    let cls := s!"twin-{desc.headD "?"}-omit{desc.getD 16 "?"}"
+    match hs.map unhex, rhs with
+    | [some p, some po, some w, some wo], "P4" :: r1 =>
+      let (v1, r2) := judgeTwin p po r1
+      match v1 with
+      | some (k, m) => s!"{k} {cls} PROJ.4:{m}"
+      | none =>
+        let (v2, _) := judgeTwin w wo (r2.drop 1)
+        match v2 with
+        | some (k, m) => s!"{k} {cls} WKT:{m}"
+        | none => s!"OK {cls}"
+    | _, _ => "BAD twinx"
+  | ["twin2", ha, hb, _, _] =>
+    match unhex ha, unhex hb with
+    | some a, some b =>
+      match (judgeTwin a b rhs).1 with
+      | some (k, m) => s!"{k} twin2 {m}"
+      | none => "OK twin2"
+    | _, _ => "BAD twin2"
   | ["pair2", _, _, _, _] =>
     match rhs with
     | "P" :: sa :: "W" :: sb :: "GRID" :: n :: g =>
